@@ -73,6 +73,18 @@ def simOp (net : Net) (toks : List String) : Option (Net × String) :=
   | ["new", n] => (nat n).map fun n => (net.set n {}, "ok")
   | ["create", n] => (nat n).map fun n => let (net', e) := create net n; (net', errStr e)
   | ["join", j, p] => do let j ← nat j; let p ← nat p; let (net', e) := join net j p; pure (net', errStr e)
+  | ["joinbegin", j, p] => do let j ← nat j; let p ← nat p; let (net', e) := joinBegin net j p; pure (net', errStr e)
+  | ["joinend", j] => (nat j).map fun j => (joinEnd net j, "ok")
+  | ["setpred", n, v] => (nat n).map fun n => (net.upd n (fun nd => { nd with pred := v.toNat? }), "ok")
+  | ["setstate", n, st] => do
+    let n ← nat n
+    let st ← [St.inactive, .joining, .active, .transferring, .leaving, .left].find? (·.name == st)
+    pure (net.upd n (fun nd => { nd with state := st }), "ok")
+  | ["setfinger", n, k, v] => do
+    let n ← nat n; let k ← nat k
+    pure (net.upd n (fun nd => { nd with fingers := nd.fingers.set (k-1) v.toNat? }), "ok")
+  | ["setsuccs", n, l] => (nat n).map fun n =>
+    (net.upd n (fun nd => { nd with succs := if l == "-" then [] else (l.splitOn ",").filterMap (·.toNat?) }), "ok")
   | ["leave", l] => (nat l).map fun l => let (net', e) := leave net l; (net', errStr e)
   | ["stabilize", n] => (nat n).map fun n => (stabilize net n, "ok")
   | ["fixfinger", n] => (nat n).map fun n => (fixFinger net n, "ok")
